@@ -184,7 +184,7 @@ def run(prog, rep, tier='quick'):
         if isinstance(v2, Tup):
             report_conflicts(rep, 'covariance', itp2, ('s',), fname, seen)
             for name, i, want, sdeg in sinks:
-                check_sink(rep, 'covariance', f.qname, 'scaling', name, v2.items[i], {'s': F(sdeg)}, loc(f.mod, f.node))
+                check_sink(rep, 'covariance', f.qname, 'scaling', name, v2.items[i], {'s': F(sdeg)}, loc(f.mod, f.node), itp2, ('s',), seen)
     # rc2poly: k_i charge i+1 ; r0 charge 0
     f = prog.func('linear_prediction', 'rc2poly')
     v, itp = run_d4(prog, 'linear_prediction', 'rc2poly', [arr(L.a, 1, 1, True), scal(0, False, s=1)], {})
